@@ -314,7 +314,19 @@ func TestCheck(t *testing.T) {
 				onlyLong = [2]int{b.Long, b.Max}
 				longBackends(rep)
 			} else {
-				crossBackends(rep, [][]kit.Step{c.Hist}, []cfgT{c.Cfg})
+				// the persistent backends write from their own goroutines in
+				// real time: what a replay shows depends on their timing, so it
+				// is repeated when the replay file asks for it ("repeat": n; until a violation shows)
+				reps := 1
+				var rr struct {
+					Repeat int `json:"repeat"`
+				}
+				if kit.LoadReplay(&rr); rr.Repeat > 1 {
+					reps = rr.Repeat
+				}
+				for i := 0; i < reps && len(rep.Violations) == 0; i++ {
+					crossBackends(rep, [][]kit.Step{c.Hist}, []cfgT{c.Cfg})
+				}
 			}
 			for _, v := range rep.Violations {
 				fmt.Println("  violation:", v.Detail)
